@@ -188,7 +188,7 @@ def evaluate(ctx, scn):
             ev.add(PROP, "marker", "several", "%d entries are marked as current" % len(marks))
         probe = c.obs.get("print_pre") or c.post
         want_desc = ""
-        if probe and probe.get("env") == "ok" and listing_ok:
+        if probe and probe.get("env") == "ok" and "next" in probe and listing_ok:
             want, want_desc = expected_marker(lst, probe)
         elif context == "clean" and listing_ok:
             # black-box: in a fault-free history the k-th accepted step executes entry k
@@ -208,7 +208,7 @@ def evaluate(ctx, scn):
                        % (session.render_item(c.item) if c.item[0] != "blank" else "<blank>", shown, mk, want_desc, sorted(want) if want else None))
         # clause 1b: the script pane of the step / rewind table lists exactly the operations still to be executed
         if kind in ("step", "rewind") and rep == "accepted" and want not in ("skip",) and listing_ok and ("pane", context) not in reported \
-                and not (probe and probe.get("next") == "commit"):
+                and not (probe and probe.get("next") == "commit") and not (want and min(want) < lst.n_commit()):
             pane = session.parse_pane(c.seg.out)
             if pane is not None:
                 left, right, lcap = pane
